@@ -47,6 +47,21 @@ def _hist_nontrivial(sx, v, meta):
     return v[0] == 'ok' and len(v[2]) > 0 and int(v[2][0]) >= 2
 
 PROPS = {
+    'C17': dict(
+        parts=[dict(harness='C17', judge='C17', cases=dict(quick=6000, thorough=60000), judge_module='Judge.J17', judge_fn='judge_C17',
+                    prerender=dict(gen='C17gen', renderer='render17'))],
+        no_shrink=True,
+        rule='syntax trees of depth 1..5 (6 thorough) over 1..5 names drawn from {a b c d e x1 if _y 7 go} (keywords and a number '
+             'included), all five binary operators, negation, exactly-one groups of 1..4 names; each tree is rendered by the '
+             'extracted Coq printer print_chars with a random layout stream (redundant parentheses, blanks, tabs, newlines, '
+             'comments) -- exactly the texts C17_roundtrip_chars quantifies over -- and given to bf.Parse; the truth table of the '
+             'returned formula over the names must equal that of the tree; one third of the texts are then corrupted at token level '
+             '(delete / duplicate / swap a token, drop a parenthesis or brace, append or insert a stray token) and the outcome '
+             '(error, or the truth table) must be the one of the mirrored parser; non-trivial = text of at least 12 characters',
+        nontrivial=lambda sx, v, meta: v[0] == 'ok' and (len(v[2]) < 2 or int(v[2][1]) >= 12 or int(v[2][0]) == 1),
+        assumptions=['exactly-one groups have at most 4 names here because Formula.Eval cannot evaluate larger groups (auxiliary variables)',
+                     'strings, floats, hex numbers as names are outside the documented syntax and outside the tokenizer model'],
+    ),
     'C20': dict(
         parts=[dict(harness='C20o', judge='C20o', cases=dict(quick=2500, thorough=25000), judge_module='Judge.J20', judge_fn='judge_C20o'),
                dict(harness='C20m', judge='C20m', cases=dict(quick=1500, thorough=15000)),
